@@ -46,7 +46,8 @@ CHECKS["C05"] = dict(
          "window; MSMPrecomp.MSM loop pairs scalar i with table i and skips zeros for lengths up to 6 (thorough 32).",
     design_ref="DESIGN.md section 5 / C05 (O1, O2)",
     note="Trusted: encoder, z3, table given by specification ((j+1)*kappa_k), group-law summaries of ExtendedAddNormalized/Neg, "
-         "UNMONT bijection (C15). Outside: table construction and curve formulas (O3/O4 not yet built), linearity consequences.",
+         "UNMONT bijection (C15). ExtendedAddNormalized / PointExtendedFromProj / Neg are additionally checked against the twisted Edwards "
+         "addition law (a=-5) as rational-function identities. Outside: table construction (O4 not built), linearity consequences.",
     technique="SSA symbolic execution + SMT (z3 QF_BV), lazy specification tables, formal-linear-combination group domain")
 
 CHECKS["C09"] = dict(
@@ -54,7 +55,7 @@ CHECKS["C09"] = dict(
     text="bandersnatch.MultiExp stack executed from SSA in the formal-linear-combination group domain: partitionScalars for every "
          "implemented window width c in {4..16,20,21,22} and all scalars < r (per-chunk closed-form signed digit, no top carry, "
          "smallValues exact); msmC4..msmC8 orchestration (goroutines, channels, first-chunk split, reduction) for n<=3 points with real "
-         "bucket arrays (quick: c=4,5; thorough: 4..8) and with the chunk processor summarised by its contract; MultiExp window choice / "
+         "bucket arrays (quick: c=4,5; thorough: c=4,5,6) and with the chunk processor summarised by its contract; MultiExp window choice / "
          "recursive split / fan-in for concrete (n, NbTasks, NumCPU) configurations with symbolic scalars; channel capacity and close/"
          "send ordering conditions.",
     design_ref="DESIGN.md section 5 / C09",
@@ -132,8 +133,9 @@ CHECKS["C03"] = dict(
          "the sequential reference prover's for every NumCPU in {1,2,3,4,16} (thorough 1..16) and channel arrival order fifo/lifo, hence "
          "are a function of (label, commitments as group elements, polynomials, indices) only.",
     design_ref="DESIGN.md section 5 / C03 (O1)",
-    note="As C01. Outside: the 8 IPA rounds (O2 not built), serialisation (C10), hashing (C14), cross-implementation byte equality on "
-         "concrete inputs (repository vectors / native replay).",
+    note="As C01. The IPA prover itself (CreateIPAProof, 8 halving rounds at the real size) is executed and every L_k, R_k, transcript item "
+         "and the final scalar compared with the specification's prover. Outside: serialisation (C10), hashing (C14), cross-implementation "
+         "byte equality on concrete inputs (repository vectors / native replay).",
     technique="SSA symbolic execution + z3 identity checking, configuration enumeration (NumCPU, arrival order)")
 CHECKS["C13"] = dict(
     category="proof",
